@@ -28,7 +28,9 @@ RULE = ("spatial: rank 0-2 real/complex properties x 1-3 frames x synthetic neig
         "order, per-frame lists differ) x Nmax {default, >=, ==, < largest cn}; gaussian: d {2,3} x grids with equal "
         "and unequal point numbers x ortho (any origin) and triclinic cells x masks x sigma, cut x rank 0-2 x 1-2 frames "
         "(box may change between frames); window: T 2-10 x w 1..T-1 x exact-multiple / fractional / decimal-multiple "
-        "periods x real/complex. Non-trivial rules per facet.")
+        "periods x real/complex. Extension 1: coordination number varying within a frame (padded rows, particle 0 "
+        "non-zero), sheared two-frame series (same edges, different tilt), second call with new contents in the same "
+        "array / Snapshots objects and the same file name. Non-trivial rules per facet.")
 ASSUMPTIONS = [
     "properties are float64 or complex128 arrays (integer arrays cannot be divided in place); gaussian_blurring is "
     "documented for float properties only",
@@ -180,10 +182,10 @@ def gauss_st(draw):
     else:
         ngrids = [draw(st.integers(2, 6 if d == 2 else 4)) for _ in range(d)]
     T = draw(st.integers(1, 2))
-    kind = draw(st.sampled_from(["ortho", "ortho", "ortho", "ortho", "tri"]))
+    kind = draw(st.sampled_from(["ortho", "ortho", "ortho", "tri"]))
     cells = [draw(cell_st(d, kind, lmin=1.0, lmax=30.0))]
     if T == 2:
-        how = draw(st.sampled_from(["same", "fresh", "retilt"] if kind == "tri" else ["same", "fresh"]))
+        how = draw(st.sampled_from(["same", "fresh", "retilt", "retilt", "retilt"] if kind == "tri" else ["same", "fresh"]))
         if how == "fresh":
             cells.append(draw(cell_st(d, kind, lmin=1.0, lmax=30.0)))
         elif how == "retilt":
